@@ -45,15 +45,29 @@ def scratch(name: str = "") -> Path:
     """A fresh scratch directory outside /repo and /verif, removed at exit."""
     global _scratch_root
     if _scratch_root is None:
-        base = os.environ.get("VERIF_TMP") or tempfile.gettempdir()
-        _scratch_root = Path(tempfile.mkdtemp(prefix="eudoxia-verif-", dir=base))
-        import atexit
-        atexit.register(lambda: shutil.rmtree(_scratch_root, ignore_errors=True))
+        inherited = os.environ.get("VERIF_SCRATCH_ROOT")
+        if inherited and Path(inherited).is_dir():
+            _scratch_root = Path(inherited)          # a worker process: the root belongs to (and is removed by) the process that started the pool
+        else:
+            base = os.environ.get("VERIF_TMP") or tempfile.gettempdir()
+            _scratch_root = Path(tempfile.mkdtemp(prefix="eudoxia-verif-", dir=base))
+            import atexit
+            atexit.register(lambda: shutil.rmtree(_scratch_root, ignore_errors=True))
     if name:
         d = _scratch_root / name
         d.mkdir(parents=True, exist_ok=True)
         return d
     return Path(tempfile.mkdtemp(prefix="d", dir=_scratch_root))
+
+
+def pool(n: int):
+    """A pool of worker processes that do NOT inherit this process's memory (forkserver): a check that has already collected gigabytes
+    of traces can start another pool without every worker touching - and thereby copying - those pages."""
+    import multiprocessing as mp
+    scratch("pool")          # makes sure the scratch root exists; the workers (and the fork server) learn it from the environment
+    os.environ["VERIF_SCRATCH_ROOT"] = str(_scratch_root)
+    ctx = mp.get_context("forkserver")
+    return ctx.Pool(max(1, n))
 
 
 def import_repo():
